@@ -140,10 +140,35 @@ pub fn gen_case(rng: &mut Rng, corpus: &[(String, Vec<u8>)], idx: usize) -> CliC
     let combo = idx % 12;
     let (mut normalize, mut replace, mut force, mut alternatives, mut minimal) = (false, false, false, false, false);
     match combo {
-        0 | 1 => {}
+        0 => {}
+        // (the remaining combinations of the five switches take turns in the two slots that used to repeat a neighbour)
+        1 => match (idx / 12) % 4 {
+            0 => {}
+            1 => {
+                normalize = true;
+                replace = true;
+                force = true;
+                minimal = true;
+            }
+            2 => {
+                normalize = true;
+                alternatives = true;
+                minimal = true;
+            }
+            _ => {
+                normalize = true;
+                replace = true;
+                force = true;
+                alternatives = true;
+            }
+        },
         2 => alternatives = true,
         3 => minimal = true,
-        4 | 5 => normalize = true,
+        4 => normalize = true,
+        5 => {
+            normalize = true;
+            minimal = (idx / 12) % 2 == 0;
+        }
         6 => {
             normalize = true;
             replace = true;
@@ -241,6 +266,18 @@ pub fn gen_case(rng: &mut Rng, corpus: &[(String, Vec<u8>)], idx: usize) -> CliC
         force = false;
         alternatives = idx % 3 == 1;
         minimal = idx % 3 == 2;
+        threshold = None;
+    }
+    // a Big5 file with sequences that decode to two characters each: what gets written is still the whole text
+    if idx == 13 || idx == 25 || idx % 97 == 71 {
+        let content = big5_two_codepoint_text(rng);
+        files = vec![("dictionary.txt".to_string(), content)];
+        args_files = vec!["dictionary.txt".into()];
+        normalize = true;
+        replace = idx % 2 == 0;
+        force = replace;
+        alternatives = false;
+        minimal = false;
         threshold = None;
     }
     // a file in a non-UTF encoding that has a signature (gb18030), starting with the signature twice: the second
@@ -640,6 +677,43 @@ pub fn run(prop: &'static str, thorough: bool, seed: u64) -> Report {
                                         if b.encoding() != enc {
                                             rep.fail("oracle", "C16:first-entry-is-not-the-best-match", &desc, src, None, "json");
                                         }
+                                    }
+                                }
+                            }
+                        }
+                    }
+                } else {
+                    // the one-line-per-input report: as many lines as inputs, each naming what the library reports for that
+                    // input (best guess first, then – with alternatives – the other matches in the library's order)
+                    let lines: Vec<&str> = stdout.lines().collect();
+                    if lines.len() != case.args_files.len() {
+                        rep.fail("oracle", "C16:minimal-report-line-count", &format!("{} || {} lines for {} inputs", desc, lines.len(), case.args_files.len()), stdout.as_bytes(), None, "minimal");
+                    } else {
+                        for (i, nm) in case.args_files.iter().enumerate() {
+                            // skip inputs whose content or report another input of the same run may have touched: the same path
+                            // given twice, or (writing siblings) a name that extends another input's stem
+                            let stem = |x: &str| x.rsplit_once('.').map(|p| p.0.to_string()).unwrap_or_else(|| x.to_string());
+                            let entangled = case.args_files.iter().enumerate().any(|(k, other)| {
+                                k != i && (other == nm || (case.normalize && (nm.starts_with(&format!("{}.", stem(other))) || other.starts_with(&format!("{}.", stem(nm))))))
+                            });
+                            if entangled {
+                                continue;
+                            }
+                            if let Some(src) = before.get(nm) {
+                                if let Ok(Ok(ms)) = real_detect_raw(src, &sett) {
+                                    rep.count("oracle:minimal-line-vs-library");
+                                    let want = match ms.get_best() {
+                                        None => "undefined".to_string(),
+                                        Some(b) => {
+                                            let mut v = vec![b.encoding().to_string()];
+                                            if case.alternatives {
+                                                v.extend(ms.iter().filter(|m| *m != b).map(|m| m.encoding().to_string()));
+                                            }
+                                            v.join(", ")
+                                        }
+                                    };
+                                    if lines[i] != want {
+                                        rep.fail("oracle", "C16:minimal-line-differs-from-library", &format!("{} || line {} is {:?}, the library reports {:?}", desc, i, lines[i], want), src, None, "minimal");
                                     }
                                 }
                             }
